@@ -296,3 +296,6 @@ package vuego
 
 //@ func (v *Vue) evaluate(ctx, nodes, depth) (res, err)
 //@   loop 0 invariant C03+C04.loop.bounds: 0 <= i && i <= len(nodes)
+
+//@ func splitPathImpl(expr) (r)
+//@   modifies nothing
